@@ -12,8 +12,9 @@ import (
 )
 
 type seg struct {
-	data []byte
-	due  time.Duration
+	data   []byte
+	due    time.Duration
+	sealed bool // never coalesced with later writes
 }
 
 // half is one direction of a TCP connection.
@@ -175,10 +176,24 @@ func (c *Conn) Write(b []byte) (int, error) {
 // enqueueL cuts data into segments and queues them on h.
 func (n *Net) enqueueL(h *half, data []byte) {
 	now := n.Now()
+	// coalesce with the last queued segment while it is still in flight and not full (Nagle-like)
+	if k := len(h.q); k > 0 && !h.q[k-1].sealed && len(h.q[k-1].data) < n.cfg.MSS {
+		last := &h.q[k-1]
+		room := n.cfg.MSS - len(last.data)
+		if room > len(data) {
+			room = len(data)
+		}
+		last.data = append(last.data, data[:room]...)
+		data = data[room:]
+		h.qb += room
+		h.sent += int64(room)
+	}
 	for len(data) > 0 {
 		sz := n.cfg.MSS
+		sealed := false
 		if n.cfg.TinyProb > 0 && n.rng.Chance(n.cfg.TinyProb) {
 			sz = 1 + n.rng.Intn(16)
+			sealed = true
 		}
 		if sz > len(data) {
 			sz = len(data)
@@ -191,7 +206,7 @@ func (n *Net) enqueueL(h *half, data []byte) {
 			due = h.lastDue
 		}
 		h.lastDue = due
-		h.q = append(h.q, seg{cp, due})
+		h.q = append(h.q, seg{cp, due, sealed})
 		h.qb += sz
 		h.sent += int64(sz)
 	}
